@@ -8,6 +8,7 @@ import time
 from collections import deque
 from collections.abc import Callable, Iterator
 from dataclasses import dataclass, field
+from struct import error as StructError
 from struct import pack, unpack_from
 from typing import Deque, Optional, Union, cast
 
@@ -438,7 +439,12 @@ def parse_packet(data: bytes) -> tuple[int, int, int, list[Chunk]]:
         chunk_body = data[pos + SCTP_CHUNK_HEADER_LENGTH : pos + chunk_length]
         chunk_cls = CHUNK_TYPES.get(chunk_type)
         if chunk_cls:
-            chunks.append(chunk_cls(flags=chunk_flags, body=chunk_body))
+            try:
+                chunks.append(chunk_cls(flags=chunk_flags, body=chunk_body))
+            except StructError:
+                raise ValueError(
+                    f"SCTP chunk of type {chunk_type} has a truncated body"
+                ) from None
         pos += chunk_length + padl(chunk_length)
     return source_port, destination_port, verification_tag, chunks
 
